@@ -533,7 +533,7 @@ static int push_args(Node *node) {
         int ngp, nfp;
         struct_regs(ty, &ngp, &nfp);
 
-        if (fp + nfp < FP_MAX && gp + ngp < GP_MAX) {
+        if (fp + nfp <= FP_MAX && gp + ngp <= GP_MAX) {
           fp = fp + nfp;
           gp = gp + ngp;
         } else {
@@ -544,7 +544,9 @@ static int push_args(Node *node) {
       break;
     case TY_FLOAT:
     case TY_DOUBLE:
-      if (fp++ >= FP_MAX) {
+      if (fp < FP_MAX) {
+        fp++;
+      } else {
         arg->pass_by_stack = true;
         stack++;
       }
@@ -554,7 +556,9 @@ static int push_args(Node *node) {
       stack += 2;
       break;
     default:
-      if (gp++ >= GP_MAX) {
+      if (gp < GP_MAX) {
+        gp++;
+      } else {
         arg->pass_by_stack = true;
         stack++;
       }
@@ -916,7 +920,7 @@ static void gen_expr(Node *node) {
         int ngp, nfp;
         struct_regs(ty, &ngp, &nfp);
 
-        if (fp + nfp < FP_MAX && gp + ngp < GP_MAX) {
+        if (fp + nfp <= FP_MAX && gp + ngp <= GP_MAX) {
           if (fp1)
             popf(fp++);
           else
@@ -1343,7 +1347,7 @@ static void assign_lvar_offsets(Obj *prog) {
         if (ty->size <= 16) {
           int ngp, nfp;
           struct_regs(ty, &ngp, &nfp);
-          if (fp + nfp < FP_MAX && gp + ngp < GP_MAX) {
+          if (fp + nfp <= FP_MAX && gp + ngp <= GP_MAX) {
             fp = fp + nfp;
             gp = gp + ngp;
             continue;
@@ -1352,14 +1356,18 @@ static void assign_lvar_offsets(Obj *prog) {
         break;
       case TY_FLOAT:
       case TY_DOUBLE:
-        if (fp++ < FP_MAX)
+        if (fp < FP_MAX) {
+          fp++;
           continue;
+        }
         break;
       case TY_LDOUBLE:
         break;
       default:
-        if (gp++ < GP_MAX)
+        if (gp < GP_MAX) {
+          gp++;
           continue;
+        }
       }
 
       top = align_to(top, 8);
